@@ -218,6 +218,32 @@ fn wl_c08(seed: u64, tier: &str) -> Vec<Vec<Value>> {
         for _ in 0..40 {
             reprs.push(rand_wide(&mut r, f.nw));
         }
+        // values that share the upper limbs with the modulus and differ in one lower limb, in both
+        // directions (a limb-wise comparison must start from the most significant limb)
+        for i in 0..f.nw {
+            let mut up = f.p.clone();
+            let mut dn = f.p.clone();
+            // p + 2^(64 i) - 1  and  p - 2^(64 i) + 1  by limb surgery (no carries needed for these shapes)
+            if i > 0 {
+                up[i] = up[i].wrapping_add(1);
+                for j in 0..i { up[j] = f.p[j].wrapping_sub(1); }
+                dn[i] = dn[i].wrapping_sub(1);
+                for j in 0..i { dn[j] = f.p[j].wrapping_add(1); }
+                reprs.push(up);
+                reprs.push(dn);
+            }
+            let mut z = f.p.clone();
+            z[i] = 0;
+            reprs.push(z);
+            let mut m = f.p.clone();
+            m[i] = u64::MAX;
+            if i == f.nw - 1 { m[i] = f.p[i]; m[0] = u64::MAX; }
+            reprs.push(m);
+            let mut lo = vec![0u64; f.nw];
+            lo[f.nw - 1] = f.p[f.nw - 1];
+            lo[i] = if i == f.nw - 1 { f.p[i] } else { u64::MAX };
+            reprs.push(lo);
+        }
         // only the top word too large
         let mut t = f.p.clone();
         t[f.nw - 1] += 1;
@@ -330,6 +356,17 @@ pub fn cat_f2(r: &mut Rng, f: &FieldInfo) -> Vec<Value> {
     for _ in 0..4 {
         v.push(f2(&rand_elem(r, f), &z));
         v.push(f2(&z, &rand_elem(r, f)));
+    }
+    // limb boundaries: non-zero values whose low limb(s) are zero, paired with odd / even / zero
+    let three = w_add_small(&z, 3);
+    for k in [64usize, 128, 320].iter() {
+        let b = w_pow2(*k, f.nw);
+        let b3 = { let mut t = b.clone(); t[*k / 64] = 3; t };
+        for other in [&one, &w_add_small(&z, 2), &z, &three, &b].iter() {
+            v.push(f2(&b, other));
+            v.push(f2(other, &b));
+            v.push(f2(&b3, other));
+        }
     }
     v
 }
